@@ -5,7 +5,7 @@ use p256::ecdsa::SigningKey;
 use p256::NistP256;
 use rand::rngs::StdRng;
 use sha1::{Digest, Sha1};
-use signature::{Keypair, Signer};
+use signature::Signer;
 use std::time::Duration;
 use x509_cert::{
     builder::{Builder, CertificateBuilder, Profile},
@@ -16,7 +16,7 @@ use x509_cert::{
         KeyUsages, SubjectKeyIdentifier,
     },
     name::Name,
-    spki::{EncodePublicKey, SignatureBitStringEncoding, SubjectPublicKeyInfoOwned},
+    spki::{SignatureBitStringEncoding, SubjectPublicKeyInfoOwned},
     time::Validity,
     Certificate,
 };
